@@ -392,6 +392,13 @@ func ruleOrderedMapTemplates(c *Ctx, r *Report) {
 		}
 	}
 	checkHelperTable(c, r)
+	valueKeyShapes, valueKeyMiss, valueKeyPos = 0, "", "-"
+	defer func() {
+		if valueKeyShapes > 0 {
+			r.Check(valueKeyMiss == "", "gogen.orderedMap.Append:unset-value-keys-rejected", valueKeyPos, fmt.Sprintf("%d key shapes with by-value key leaves: each such leaf is tested for its unset value with an error return", valueKeyShapes),
+				"the generated ordered-map Append has no test of the by-value key leaf "+valueKeyMiss+" against its unset value (an enumeration's 0, a union's nil): an element without that key is accepted and stored under the key nil / UNSET (`Keys() = [<nil>]`), although Append must reject nil keys without changing the map")
+		}
+	}()
 	for _, shape := range listShapes {
 		data := map[string]any{"StructName": "Elem_OrderedMap", "KeyName": shape.keyTypeName(), "ListTypeName": "Elem", "ListFieldName": "L",
 			"Keys": shape.keyData(), "ParentStructName": "Parent", "YANGPath": "/parent/l"}
@@ -466,6 +473,17 @@ func checkOrderedMap(c *Ctx, r *Report, sp *synthPkg, shape listShape, pos strin
 			"generated Append dereferences "+bad+" without having rejected a nil "+bad+": an element with that key leaf unset panics instead of being rejected")
 		r.Check(g.paramNilChecked(v), pfx+"Append:nil-element-rejected", pos, "nil element rejected", "generated Append does not reject a nil element")
 		checkInsert(r, g, shape, pfx+"Append", pos, true, v)
+		for _, k := range shape.Keys {
+			if !k.Scalar {
+				valueKeyPos = pos
+				if !g.valueKeyUnsetRejected(v, k.Name) && valueKeyMiss == "" {
+					valueKeyMiss = k.Name + " (shape " + shape.ID + ")"
+				}
+			}
+		}
+		if wantDerefs < len(shape.Keys) {
+			valueKeyShapes++
+		}
 	}
 	if g := get("AppendNew"); g != nil {
 		checkInsert(r, g, shape, pfx+"AppendNew", pos, false, nil)
@@ -547,6 +565,48 @@ func checkOrderedMap(c *Ctx, r *Report, sp *synthPkg, shape listShape, pos strin
 	}
 }
 
+
+// state of the aggregated unset-value-key obligation of the template rule that is running (the rules run one at a time).
+var (
+	valueKeyShapes int
+	valueKeyMiss   string
+	valueKeyPos    string
+)
+
+// valueKeyUnsetRejected: the method rejects an element whose by-value key leaf `field` (an enumeration,
+// 0 = unset, or a union interface, nil = unset) is unset: some `if` whose condition compares p.<field>
+// for equality and whose body ends in an error return.
+func (g *gm) valueKeyUnsetRejected(p types.Object, field string) bool {
+	found := false
+	ast.Inspect(g.f.Decl.Body, func(x ast.Node) bool {
+		is, ok := x.(*ast.IfStmt)
+		if !ok || found {
+			return !found
+		}
+		hit := false
+		ast.Inspect(is.Cond, func(y ast.Node) bool {
+			be, ok := y.(*ast.BinaryExpr)
+			if !ok || be.Op != token.EQL {
+				return true
+			}
+			for _, side := range []ast.Expr{be.X, be.Y} {
+				if se, ok := ast.Unparen(side).(*ast.SelectorExpr); ok && se.Sel.Name == field && g.root(se) == p {
+					hit = true
+				}
+			}
+			return true
+		})
+		if hit && terminates(g.info, is.Body.List) {
+			for _, rs := range returnsOf(is.Body) {
+				if g.isErrReturn(rs) {
+					found = true
+				}
+			}
+		}
+		return true
+	})
+	return found
+}
 
 // paramNilChecked: `if p == nil { return <err> }` exists at top level.
 func (g *gm) paramNilChecked(p types.Object) bool {
@@ -717,6 +777,13 @@ func ruleKeyedListTemplates(c *Ctx, r *Report) {
 		}
 	}
 	checkHelperTable(c, r)
+	valueKeyShapes, valueKeyMiss, valueKeyPos = 0, "", "-"
+	defer func() {
+		if valueKeyShapes > 0 {
+			r.Check(valueKeyMiss == "", "gogen.appendList:unset-value-keys-rejected", valueKeyPos, fmt.Sprintf("%d key shapes with by-value key leaves: each such leaf is tested for its unset value with an error return", valueKeyShapes),
+				"the generated Append<List> has no test of the by-value key leaf "+valueKeyMiss+" against its unset value (an enumeration's 0, a union's nil): an element without that key is accepted and stored under the key nil / UNSET (`map[<nil>:…]`), although Append must reject nil keys without changing the map")
+		}
+	}()
 	for _, shape := range listShapes {
 		ks := ""
 		if shape.multi() {
@@ -866,6 +933,17 @@ func checkKeyedList(c *Ctx, r *Report, sp *synthPkg, shape listShape) {
 			}
 		}
 		r.Check(bad == "" && n >= want, pfx+"Append:nil-keys-rejected", pos, fmt.Sprintf("%d pointer key leaves nil-checked before dereference", n), "generated Append dereferences "+bad+" without having rejected a nil key leaf: panic instead of an error")
+		for _, k := range shape.Keys {
+			if !k.Scalar {
+				valueKeyPos = pos
+				if !g.valueKeyUnsetRejected(v, k.Name) && valueKeyMiss == "" {
+					valueKeyMiss = k.Name + " (shape " + shape.ID + ")"
+				}
+			}
+		}
+		if want < len(shape.Keys) {
+			valueKeyShapes++
+		}
 		ws := g.semantic(g.recv)
 		r.Check(allBefore(g.errReturnPositions(), posOf(ws)), pfx+"Append:errors-before-writes", pos, "errors precede the write", "generated Append can return an error after having written the map")
 		one := len(ws) == 1 && ws[0].Kind == "store" && ObjOf(g.info, ws[0].RHS) == v
